@@ -224,6 +224,11 @@ impl SimCtx {
                 let (Some(r), Some(d), Some(i)) = (reg(r), h(d), h(i)) else { return "bad-op".into() };
                 self.sim.reg_file[r] = Word::verif_from_parts(d, i); "ok".into()
             }
+            ["setrun", n] => {
+                // host sets the public instruction counter (to exercise its wrap-around at 2^64)
+                let Ok(n) = n.parse::<u64>() else { return "bad-op".into() };
+                self.sim.instructions_run = n; "ok".into()
+            }
             ["initall"] => {
                 // marks every memory word and register fully initialised (keeps the data)
                 for a in 0..=u16::MAX { let (d, _) = self.sim.mem[a].verif_parts(); self.sim.mem[a] = Word::verif_from_parts(d, 0xFFFF); }
